@@ -42,8 +42,10 @@ def make_scenario(rng):
                 ops.append(('bcancel', c))      # the broker cancels one of the channel's consumers unprompted
             elif role == 'consume' and k < 0.76:
                 ops.append(('cancel', c))       # the application cancels one of them
-            elif k < 0.70:
+            elif k < 0.62:
                 ops.append(('declare', c, 'q-%d-%d' % (t, len(ops))))
+            elif k < 0.70 and role == 'rpc':
+                ops.append(('publish', c, rng.choice([0, 10, 5000, 9000])))     # plain publish: three or more frames written in one go
             elif k < 0.75:
                 ops.append(('churn', c, 'churn-%d-%d' % (t, len(ops))))   # open a further channel, use it, close it
             elif k < 0.85:
@@ -126,6 +128,8 @@ def run_one(args):
                         r = ch.basic.publish(b'after-reopen', 'confirm-q')
                         if r is not None:
                             out['wrong'].append(('publish-after-reopen', r))
+                    elif kind == 'publish':
+                        ch.basic.publish(b'p' * op[2], 'plain-q')
                     elif kind == 'churn':
                         extra = conn.channel(rpc_timeout=60)
                         r = extra.queue.declare(op[2])
